@@ -335,7 +335,7 @@ impl Worker {
 
     pub fn has_time_to_run(&self, time_request: TimeRequest, now: Instant) -> bool {
         if let Some(time) = self.termination_time {
-            now + time_request <= time
+            now.checked_add(time_request).is_some_and(|t| t <= time)
         } else {
             true
         }
@@ -370,7 +370,9 @@ impl Worker {
         let resources = WorkerResources::from_description(&configuration.resources, resource_map);
         Self {
             id,
-            termination_time: configuration.time_limit.map(|duration| now + duration),
+            termination_time: configuration
+                .time_limit
+                .and_then(|duration| now.checked_add(duration)),
             configuration,
             assignment: WorkerAssignment::empty_sn(&resources),
             resources,
